@@ -146,8 +146,11 @@ class Gen:
                 if signed128(nt - cur) >= 0:
                     t = nt
             elif k < 0.84 and nl:
-                l = r.randrange(nl)
-                ops.append(["M", l, r.randint(0, 1), hx(self.val(1e-3)), hx(self.pos(-7, -3)), 1 if (l in present and r.random() < 0.85) else r.randint(0, 1)])
+                ok = [l for l in range(nl) if all(x in internal or x in external for x in links[l])
+                      and not all(x in external for x in links[l])]
+                l = r.randrange(nl) if (invalid or not ok) else r.choice(ok)
+                delay = (1 if r.random() < 0.9 else 0) if l in present else (1 if r.random() < 0.1 else 0)
+                ops.append(["M", l, r.randint(0, 1), hx(self.val(1e-3)), hx(self.pos(-7, -3)), delay])
             elif k < 0.90:
                 c = r.randrange(nc) if (invalid or not internal) else r.choice(internal)
                 which = r.choice(["AF", "AO"])
@@ -198,37 +201,37 @@ def split_out(case, out):
     return res, groups[-1][1:]
 
 
-def dump_to_z(d, nlinks_unused=None):
-    """harness dump tokens -> list of ints in the order of dump_est"""
-    o = []
+def dump_split(d):
+    """harness dump tokens -> (ints, floats as bit patterns) in the order of dump_ints / dump_floats"""
+    ints, wander, decay = [], [], []
     i = 0
 
     def take():
         nonlocal i
         i += 1
         return d[i - 1]
-    o.append(int(take()))
-    for _ in range(4):
-        o.append(int(take()))
+    for _ in range(5):
+        ints.append(int(take()))
     ncl = int(take())
-    o.append(ncl)
+    ints.append(ncl)
     for _ in range(ncl):
-        o.append(int(take()))
-        o.append(int(take()))
-        o.append(int(take(), 16))
+        ints.append(int(take()))
+        ints.append(int(take()))
+        wander.append(int(take(), 16))
     ne = int(take())
-    o.append(ne)
+    ints.append(ne)
     for _ in range(ne):
-        o.append(int(take()))
+        ints.append(int(take()))
     nli = int(take())
-    o.append(nli)
+    ints.append(nli)
     for _ in range(nli):
-        o.append(int(take()))
-        o.append(int(take()))
-        o.append(int(take(), 16))
+        ints.append(int(take()))
+        ints.append(int(take()))
+        decay.append(int(take(), 16))
+    rest = []
     while i < len(d):
-        o.append(int(take(), 16))
-    return o
+        rest.append(int(take(), 16))
+    return ints, wander + decay + rest
 
 
 def code_z(c):
@@ -239,8 +242,21 @@ def code_z(c):
     return int(c[1:])
 
 
+def flit(b):
+    """Coq primitive-float literal of a 64-bit pattern (parsed natively, exact)"""
+    e = (b >> 52) & 0x7ff
+    m = b & ((1 << 52) - 1)
+    if e == 0x7ff:
+        if m:
+            return "nan"
+        return "neg_infinity" if b >> 63 else "infinity"
+    x = struct.unpack(">d", struct.pack(">Q", b))[0]
+    h = x.hex()
+    return "(%s)" % h if h.startswith("-") else h
+
+
 def fbz(h):
-    return "(fb %d)" % int(h, 16)
+    return flit(int(h, 16))
 
 
 def coq_op(case, op):
@@ -277,22 +293,24 @@ def coq_op(case, op):
 
 
 def coq_case(case, out):
+    inp = "((%s, %s) : Z * list (option fop))" % (vplib.zlit(case["t0"]), vplib.coq_list([coq_op(case, o) for o in case["ops"]]))
     if out and out[0] == "PANIC":
-        return ("(%s, %s)" % (vplib.zlit(case["t0"]), vplib.coq_list([coq_op(case, o) for o in case["ops"]])),
-                "[(-99)%Z]")
+        return inp, "([(-99)%Z], [])"
     sp = split_out(case, out)
     if sp is None:
-        return ("(%s, %s)" % (vplib.zlit(case["t0"]), vplib.coq_list([coq_op(case, o) for o in case["ops"]])),
-                "[(-98)%Z]")
+        return inp, "([(-98)%Z], [])"
     per, final = sp
-    zs = []
+    zs, fs = [], []
     for code, _t, _q, d in per:
         zs.append(code_z(code))
         if d is not None:
-            zs += dump_to_z(d)
-    zs += dump_to_z(final)
-    return ("(%s, %s)" % (vplib.zlit(case["t0"]), vplib.coq_list([coq_op(case, o) for o in case["ops"]])),
-            vplib.coq_list([vplib.zlit(z) for z in zs]))
+            i, f = dump_split(d)
+            zs += i
+            fs += f
+    i, f = dump_split(final)
+    zs += i
+    fs += f
+    return inp, "(%s, %s)" % (vplib.coq_list([vplib.zlit(z) for z in zs]), vplib.coq_list([flit(x) for x in fs]))
 
 
 def monitor(case, out):
@@ -431,8 +449,8 @@ def main():
         c, "statime-algo", cases,
         line_of=line_of,
         coq_case_of=coq_case,
-        preamble="From V Require Import Model.EstimatorRun.\n",
-        checker="mismatches list_eqb c42_run",
+        preamble="From V Require Import Model.EstimatorRun.\nLocal Open Scope float_scope.\n",
+        checker="mismatches out_eqb c42_run",
         monitor=monitor,
         nontrivial=note,
         shard=60 if c.tier == "quick" else 200,
